@@ -341,6 +341,10 @@ package pbft
 //@              && proposal.Height == cs.RoundState.Height && proposal.Round == cs.RoundState.Round && (proposal.POLRound == -1 || (0 <= proposal.POLRound && proposal.POLRound < proposal.Round)) \
 //@              && 0 <= proposal.BlockPartsHeader.Total && proposal.BlockPartsHeader.Total <= types.MaxBlockSize
 //@   ensures  [rejected-proposal-changes-nothing] result != nil ==> cs.RoundState.Proposal == old(cs.RoundState.Proposal) && cs.RoundState.ProposalBlockParts == old(cs.RoundState.ProposalBlockParts)
+// a proposal that does not apply (one is already set, other height/round, or the node is already committing: the part set
+// then belongs to the block being committed) must be dropped without touching the round state
+//@   ensures  [inapplicable-proposal-is-dropped] old(cs.RoundState.Proposal) != nil || proposal.Height != old(cs.RoundState.Height) || proposal.Round != old(cs.RoundState.Round) || old(cs.RoundState.Step) >= 8 \
+//@              ==> cs.RoundState.Proposal == old(cs.RoundState.Proposal) && cs.RoundState.ProposalBlockParts == old(cs.RoundState.ProposalBlockParts)
 //@   ensures  wfCS(cs)
 
 //@ func (*ConsensusState).addProposalBlockPart
